@@ -484,9 +484,29 @@ pub fn replay_file<P: Property>(p: &P, j: &J, path: &str) -> i32 {
         }
     };
     let want_class = j.get("class").and_then(|c| c.as_str()).unwrap_or("");
+    // a replay that makes the library loop for ever is reported (as the `stuck` class) after 120 s
+    let done = std::sync::Arc::new(AtomicBool::new(false));
+    {
+        let done = done.clone();
+        let prop = p.id().to_string();
+        let path = path.to_string();
+        std::thread::spawn(move || {
+            let t0 = Instant::now();
+            while !done.load(Ordering::Relaxed) {
+                std::thread::sleep(std::time::Duration::from_millis(250));
+                if t0.elapsed().as_secs_f64() > 120.0 {
+                    println!("class: stuck");
+                    println!("message: the replayed run did not complete within 120 s wall-clock");
+                    println!("VIOLATION property={} replay={}", prop, path);
+                    std::process::exit(EXIT_VIOLATION);
+                }
+            }
+        });
+    }
     set_quiet(true);
     let (out, _used) = run_tape(p, &tape, &Opts { describe: true });
     set_quiet(false);
+    done.store(true, Ordering::Relaxed);
     match out {
         Err(e) => {
             eprintln!("harness error during replay: {}", e);
@@ -748,20 +768,65 @@ pub fn run_batch<P: Property>(p: &P, cfg: &BatchCfg) -> i32 {
         let class = v.class;
         let orig_len = tape.len();
         let kfs_ref = &kfs;
-        let (small, evals) = shrink(
-            &tape,
-            |t| {
-                let (o, _) = run_tape(p, t, &Opts::default());
-                match o {
-                    Ok(RunOut {
-                        violation: Some(v2), ..
-                    }) => v2.class == class && match_known(kfs_ref, prop, &v2).is_none(),
-                    _ => false,
+        // Minimisation runs library code on candidate tapes, and a candidate may make the library
+        // loop for ever (seen with a mutant of Rectangle::points). A watchdog covers this phase too:
+        // if one candidate takes more than 60 s, the best tape found so far is written as the
+        // replay file, the VIOLATION line is printed and the process exits 1.
+        let best: Mutex<Vec<u32>> = Mutex::new(tape.clone());
+        let active: Mutex<Option<Instant>> = Mutex::new(None);
+        let finished = AtomicBool::new(false);
+        let v_orig = v.clone();
+        let (small, evals) = std::thread::scope(|s| {
+            s.spawn(|| {
+                while !finished.load(Ordering::Relaxed) {
+                    std::thread::sleep(std::time::Duration::from_millis(250));
+                    let started = *active.lock().unwrap();
+                    if let Some(t) = started {
+                        if t.elapsed().as_secs_f64() > 60.0 {
+                            let b = best.lock().unwrap().clone();
+                            let path = write_replay(&ReplayInfo {
+                                prop,
+                                tier: cfg.tier.name(),
+                                master_seed: cfg.master_seed,
+                                run_index: Some(i),
+                                tape: &b,
+                                violation: &v_orig,
+                                desc: None,
+                                trace: &["minimisation was cut short: a shrink candidate did not complete within 60 s".to_string()],
+                                minimised_from: Some(orig_len),
+                                shrink_evals: 0,
+                            })
+                            .unwrap_or_else(|e| format!("<unwritable: {}>", e));
+                            println!("violation in run {}: [{}] {}", i, v_orig.class, v_orig.message);
+                            println!("VIOLATION property={} replay={}", prop, path);
+                            std::process::exit(EXIT_VIOLATION);
+                        }
+                    }
                 }
-            },
-            if cfg.tier == Tier::Quick { 8000 } else { 30000 },
-            if cfg.tier == Tier::Quick { 30.0 } else { 120.0 },
-        );
+            });
+            let r = shrink(
+                &tape,
+                |t| {
+                    *active.lock().unwrap() = Some(Instant::now());
+                    let (o, _) = run_tape(p, t, &Opts::default());
+                    *active.lock().unwrap() = None;
+                    let ok = match o {
+                        Ok(RunOut {
+                            violation: Some(v2), ..
+                        }) => v2.class == class && match_known(kfs_ref, prop, &v2).is_none(),
+                        _ => false,
+                    };
+                    if ok {
+                        *best.lock().unwrap() = t.to_vec();
+                    }
+                    ok
+                },
+                if cfg.tier == Tier::Quick { 8000 } else { 30000 },
+                if cfg.tier == Tier::Quick { 30.0 } else { 120.0 },
+            );
+            finished.store(true, Ordering::Relaxed);
+            r
+        });
         let (o, used) = run_tape(p, &small, &Opts { describe: true });
         set_quiet(false);
         let mut small = small;
